@@ -1157,6 +1157,7 @@ def must_call_census(ctx, crate, files):
     loop_must_call_census(ctx, crate, files)
     co_exec_census(ctx, crate, files)
     return_census(ctx, crate, files)
+    ghost_census(ctx, crate, files)
 
 
 def self_symmetry_sites(crate):
@@ -1526,7 +1527,7 @@ def ghost_table(crate):
     return tab
 
 
-def ghost_census(ctx, crate):
+def ghost_census(ctx, crate, files=None):
     """GA: the assertions compiled in by `--features checks` are the reviewed ones.  Each of them is a proof obligation ("this
     always holds") that was checked against the invariants when it was written; the analysis cannot discharge a new one.  A
     function whose `if CHECKS` code calls something it did not call in the reviewed tree has a new or re-worded assertion:
@@ -1554,6 +1555,8 @@ def ghost_census(ctx, crate):
     n = 0
     for k, bs in sorted(by_key.items()):
         b = bs[0]
+        if files is not None and b.file not in files:
+            continue
         g = _ghost_sum(crate, bs)
         if not g:
             continue
@@ -1608,7 +1611,8 @@ def ghost_census(ctx, crate):
         ctx.check(not new, "ghost-census:" + fkey(b), "the `if CHECKS` code of %s calls nothing it did not call in the reviewed tree" % short(b.id),
                   "the code of %s that runs only with `--features checks` now calls %s, which it did not in the reviewed tree: a new or re-worded internal assertion. Every such assertion claims an invariant; one that is stricter than what the library guarantees (exact equality where only equality modulo the class's symmetries holds, ..) aborts assertion builds on valid inputs" % (short(b.id), sorted(new)),
                   where_of(b))
-    ctx.floor("functions with code under `if CHECKS`", n, 5)
+    if files is None:
+        ctx.floor("functions with code under `if CHECKS`", n, 5)
 
 
 def _anchor_names(crate):
